@@ -36,6 +36,10 @@ func main() {
 			"WithMessageEndpoint, WithSSEEndpoint (URLs adapted), WithHTTPServer, WithKeepAlive, WithKeepAliveInterval, WithSSEContextFunc, WithSSEToolListFilter, WithSSEPromptListFilter, WithSSEResourceListFilter, " +
 			"WithSSESessionIDGenerator; no option is skipped — WithServerAddress / WithCustomServer / WithHTTPServer only matter to Start(), which is not called in-process, and are applied all the same) plus 16 (quick) / 160 (thorough) seeded random permutations of ALL " +
 			"options with 2–4 middleware options (sometimes an empty one) interleaved; through each such server six requests (marks of all stages in the echo, tools/list, last stage short-circuits, first stage refuses, a stage fails); " +
+			"overlap: on every configuration of the matrix N = 20 and 40 (120 on legacy SSE and three Streamable cells; thorough: 120 everywhere, three passes) tools/call requests of ONE session (stateless / sessions disabled: one client, same headers) in flight at the same time — " +
+			"the tool handlers park at a gate (each signals that it is inside, the harness waits at most 6 s until all are), every 5th request is answered by its second stage instead and must be answered while the others are parked, then tools/list, ping, " +
+			"resources/list, another tools/call and a call refused by the first stage are sent on the same session while the handlers are parked and must pass the chain and be answered, then the gates open (legacy SSE: 40 at a time, the session's answer queue has 100 slots) " +
+			"and every answer is collected; chains of three stages mixing pass / modify-request / modify-result; every request is evaluated like all others (exact onion trace, each stage once, expected answer, right id) and emits its model line with the number of requests in flight; " +
 			"non-trivial = a distinct (transport, option form, chain, method) with at least two stages of which one is not pass-through",
 		Run: run})
 }
@@ -118,6 +122,11 @@ type tcase struct {
 	tags     []string
 	order    []string // explicit option order of the server (nil = classic)
 	post     bool     // the server's post-construction configuration methods are called too
+	// overlap phase: N = requests of the same session in flight at the same time (0 = not an overlap case), index of this one
+	// (-1 = sent while the N are parked), held = its tool handler parks at the gate
+	overlapN   int
+	overlapIdx int
+	held       bool
 	// filled by the run
 	events []event
 	ans    answer
@@ -345,6 +354,7 @@ func run(c *hk.Ctx) {
 		nServers += idCollisions(c, bases, len(order)+100)
 		nServers += sessionMatrix(c, bases, len(order)+200)
 		nServers += optionOrders(c, bases, len(order)+400)
+		nServers += overlaps(c, bases, len(order)+1000)
 	}
 	c.SetExtra("servers", nServers)
 	c.SetExtra("cases", len(cases))
@@ -774,6 +784,13 @@ func evaluate(c *hk.Ctx, s *server, tc *tcase, b baseline) {
 		// the full option order: the model registers through it ("mw:<i>" = opts[i], anything else = another option of that name)
 		op["order"] = tc.order
 	}
+	if tc.overlapN > 0 {
+		// how many other requests of the same session are being processed when this one arrives (the model admits it whatever the number)
+		op["inflight"] = tc.overlapN - 1
+		if tc.overlapIdx < 0 {
+			op["inflight"] = tc.overlapN
+		}
+	}
 	c.Emit(op, map[string]any{"trace": trace, "resp": gotResp}, nontrivial, tags...)
 }
 
@@ -786,6 +803,9 @@ func (tc *tcase) input() map[string]any {
 	if tc.order != nil {
 		in["order"] = tc.order
 		in["postConstructionMethods"] = tc.post
+	}
+	if tc.overlapN > 0 {
+		in["overlap"] = map[string]any{"N": tc.overlapN, "index": tc.overlapIdx, "parksInHandler": tc.held}
 	}
 	return in
 }
